@@ -179,6 +179,10 @@ fn decode_body(r: &Resp) -> Option<Vec<u8>> {
 	}
 }
 
+/// percent-encoding of a path segment as a standards-conforming client sends it
+fn pct(seg: &str) -> String {
+	seg.bytes().map(|b| if b.is_ascii_alphanumeric() || b"-._~".contains(&b) { (b as char).to_string() } else { format!("%{b:02X}") }).collect()
+}
 fn src_tiles(case: &Value) -> Vec<(u8, u32, u32, u32)> {
 	case["tiles"].as_array().unwrap().iter().map(|t| (t[0].as_u64().unwrap() as u8, t[1].as_u64().unwrap() as u32, t[2].as_u64().unwrap() as u32, t[3].as_u64().unwrap() as u32)).collect()
 }
@@ -229,8 +233,18 @@ pub fn tiles(bin: &str, input: &str, output: &str, dir: &str) -> Value {
 				args.push(f.to_string());
 			}
 		}
+		// every source is named on the command line in the syntax its case prescribes
+		let mut arg_ids: Vec<String> = vec![];
 		for (id, p) in &paths {
-			args.push(format!("[{id}]{}", p.to_str().unwrap()));
+			let src = &cases.iter().find(|c| c["src"]["id"] == id.as_str()).unwrap()["src"];
+			let ps = p.to_str().unwrap();
+			args.push(match src["kind"].as_str().unwrap_or("prefix") {
+				"prefix" => format!("[{id}]{ps}"),
+				"suffix" => format!("{ps}[{id}]"),
+				"hash" => format!("{ps}#{id}"),
+				_ => ps.to_string(),
+			});
+			arg_ids.push(src["sid"].as_str().unwrap_or(id).to_string());
 		}
 		let Some(server) = Server::start(bin, &args) else {
 			for i in idxs {
@@ -241,7 +255,7 @@ pub fn tiles(bin: &str, input: &str, output: &str, dir: &str) -> Value {
 		let mut client = Client::new(server.port);
 		for &i in idxs.iter() {
 			let c = &cases[i];
-			let target = format!("/tiles/{}/{}/{}/{}", c["src"]["id"].as_str().unwrap(), c["z"]["txt"].as_str().unwrap(), c["x"]["txt"].as_str().unwrap(), c["y"]["txt"].as_str().unwrap());
+			let target = format!("/tiles/{}/{}/{}/{}", pct(c["src"]["sid"].as_str().unwrap_or(c["src"]["id"].as_str().unwrap())), c["z"]["txt"].as_str().unwrap(), c["x"]["txt"].as_str().unwrap(), c["y"]["txt"].as_str().unwrap());
 			let header = c["header"].as_str().unwrap();
 			let hs: Vec<(&str, &str)> = if header.is_empty() { vec![] } else { vec![("Accept-Encoding", header)] };
 			let resp = match client.get(&target, &hs) {
@@ -267,7 +281,7 @@ pub fn tiles(bin: &str, input: &str, output: &str, dir: &str) -> Value {
 			let src = cases.iter().find(|c| c["src"]["id"] == id.as_str()).unwrap();
 			let tl = src_tiles(src);
 			let (zmin, zmax) = (tl.iter().map(|t| t.0).min().unwrap(), tl.iter().map(|t| t.0).max().unwrap());
-			let target = format!("/tiles/{id}/tiles.json");
+			let target = format!("/tiles/{}/tiles.json", pct(src["src"]["sid"].as_str().unwrap_or(id)));
 			let mut ev = json!({"ev":"tilesjson","id":0,"target":target,"q":{"src":src["src"],"flags":flags},"cov_minzoom":zmin,"cov_maxzoom":zmax,
 				"resp":{"status":-1},"valid":0,"template":"","minzoom":-1,"maxzoom":-1,"bounds_valid":0,"attribution_ok":0,"format":"","ctype":""});
 			if let Some(r) = client.get(&target, &[("Accept-Encoding", "gzip")]) {
@@ -288,6 +302,21 @@ pub fn tiles(bin: &str, input: &str, output: &str, dir: &str) -> Value {
 			}
 			extra_events.push(ev);
 		}
+		// API endpoints (system behaviour beyond the listed properties)
+		let mut api = json!({"ev":"api","id":0,"target":"/tiles/index.json","q":{"src":{"id":"api","sid":"api"},"flags":flags},"ids":arg_ids,
+			"status":{"code":-1,"body":""},"index":{"code":-1,"valid":0,"ids":[],"text":""},"unknown":-1,"resp":{"status":0}});
+		if let Some(r) = client.get("/status", &[]) {
+			api["status"] = json!({"code": r.status, "body": decode_body(&r).map(|b| String::from_utf8_lossy(&b).to_string()).unwrap_or_default()});
+		}
+		if let Some(r) = client.get("/tiles/index.json", &[("Accept-Encoding", "gzip")]) {
+			let body = decode_body(&r).unwrap_or_default();
+			let parsed = serde_json::from_slice::<Vec<String>>(&body).ok();
+			api["index"] = json!({"code": r.status, "valid": parsed.is_some() as u8, "ids": parsed.unwrap_or_default(), "text": String::from_utf8_lossy(&body).chars().take(300).collect::<String>()});
+		}
+		if let Some(r) = client.get("/tiles/nosuch/0/0/0", &[]) {
+			api["unknown"] = json!(r.status);
+		}
+		extra_events.push(api);
 		drop(client);
 		drop(server);
 	}
